@@ -5,7 +5,7 @@ ID=$1; TIER=${2:-quick}
 PID=${3:-${ID%%-*}}
 D=/dev/shm/xknx-mut-$ID-$$
 mkdir -p $D && rsync -a --exclude .git --exclude test --exclude docs /repo/ $D/ || exit 2
-if ! (cd $D && patch -p1 -s --no-backup-if-mismatch < /verif/seeded/$ID/patch.diff); then echo "$ID: PATCH-FAILED"; rm -rf $D; exit 2; fi
+if ! (cd $D && patch -p1 -s -F0 --no-backup-if-mismatch < /verif/seeded/$ID/patch.diff); then echo "$ID: PATCH-FAILED"; rm -rf $D; exit 2; fi
 out=$(cd /verif && VERIF_REPO=$D VERIF_EVIDENCE_DIR=$D/_ev timeout 3000 ./check $PID --tier $TIER 2>&1); rc=$?
 rm -rf $D
 if [ $rc -eq 1 ] && echo "$out" | grep -q "^VIOLATION property=$PID"; then echo "$ID [$PID $TIER]: DETECTED  $(echo "$out" | grep -m1 signature | cut -c1-160)";
